@@ -115,8 +115,24 @@ def package_def_count(src_root, name):
 
 
 # ----------------------------------------------------------------------------------------------------
+def _int_expr(node):
+    """integer arithmetic on int literals: evaluating it has no effect and always yields the same int"""
+    if isinstance(node, ast.Constant):
+        return type(node.value) is int
+    if isinstance(node, ast.UnaryOp) and isinstance(node.op, ast.USub):
+        return _int_expr(node.operand)
+    if isinstance(node, ast.BinOp) and isinstance(node.op, (ast.Add, ast.Sub, ast.Mult, ast.Pow, ast.LShift)):
+        if isinstance(node.op, (ast.Pow, ast.LShift)) and not (isinstance(node.right, ast.Constant) and type(node.right.value) is int
+                                                              and 0 <= node.right.value <= 4096):
+            return False
+        return _int_expr(node.left) and _int_expr(node.right)
+    return False
+
+
 def is_literal(node):
     if isinstance(node, ast.Constant):
+        return True
+    if _int_expr(node):
         return True
     if isinstance(node, ast.UnaryOp) and isinstance(node.op, ast.USub) and isinstance(node.operand, ast.Constant):
         return True
